@@ -490,7 +490,7 @@ def main(prop, tier, replay_path=None, jobs=None):
     # required classes
     req = getattr(mod, "REQUIRED_CLASSES", {})
     req = req.get(tier, req.get("quick", ())) if isinstance(req, dict) else req
-    for c in req:
+    for c in req if scale == 1 else ():
         if classes.get(c, 0) == 0 and not harness_errors:
             harness_errors.append("required class %r was never generated (generator defect)" % c)
 
